@@ -73,7 +73,7 @@ def prepare(data, info, time_entries=1, force_copy=False, report_conversion=Fals
             data = UNITS.Quantity(
                 np.ma.array(
                     data=data.magnitude,
-                    mask=info.mask,
+                    mask=_mask_for(data.magnitude, info),
                     shrink=False,
                     fill_value=info.fill_value,
                 ),
@@ -89,7 +89,7 @@ def prepare(data, info, time_entries=1, force_copy=False, report_conversion=Fals
             data = UNITS.Quantity(
                 np.ma.array(
                     data=data,
-                    mask=info.mask,
+                    mask=_mask_for(data, info),
                     shrink=False,
                     fill_value=info.fill_value,
                     copy=force_copy,
@@ -111,6 +111,19 @@ def prepare(data, info, time_entries=1, force_copy=False, report_conversion=Fals
     if report_conversion:
         return data, units_converted
     return data
+
+
+def _mask_for(data, info):
+    # flat data is reshaped in the grid's order later on: flatten the mask alike
+    mask = info.mask
+    if (
+        isinstance(info.grid, Grid)
+        and np.ndim(data) == 1
+        and np.ndim(mask) > 1
+        and np.size(mask) == np.size(data)
+    ):
+        return np.ravel(mask, order=info.grid.order)
+    return mask
 
 
 def _check_input_shape(data, info, time_entries):
